@@ -26,13 +26,13 @@ def handle : List String → String
       let (id, cell') := PeerId.getMachineId cell r1 r2 s
       s!"{String.ofList id} {match cell' with | some x => String.ofList x | none => "~"}"
     | _, _, _ => "bad-op"
-  | ["c20.handle", serial, sender, i, m, cell, a, b, c, wrote] =>
+  | ["c20.handle", serial, sender, i, m, cell, a, b, c, wrote, typ] =>
     match serial.toNat?, optName sender, optName i, optName m, a.toNat?, b.toNat?, c.toNat? with
     | some ser, some snd, some i, some m, some r1, some r2, some s =>
       let callSerial : Option Nat := if ser == 0 then none else some ser
       let call : Serial.Hdr := ⟨callSerial, snd, none, none, none, false⟩
       let cell := if cell == "~" then none else some cell.toList
-      let inc : PeerId.Incoming := ⟨call, i, m, r1, r2, s, wrote == "1"⟩
+      let inc : PeerId.Incoming := ⟨typ == "1", call, i, m, r1, r2, s, wrote == "1"⟩
       let (res, out, cell') := PeerId.handlePeerMessage inc cell
       let rs := match res with | .ok b => s!"ok:{b}" | .sendErr => "senderr"
       let os := out.map (fun r =>
